@@ -285,8 +285,83 @@ def h_identity(recreate: bool, slow: bool) -> bool:
     return vkopf.verdict(ok)
 
 
+def h_daemon_delivery(stop_kind: int, gap: int, sub: bool, returns: bool, attempts: int) -> bool:
+    """
+    pre: 0 <= stop_kind <= 2 and gap >= 0 and 1 <= attempts <= 2
+    post: _ == True
+    """
+    import json
+    from kopf._cogs.aiokits import aiotoggles
+    vkopf.begin_path()
+    stop_kind = vkopf.pin('stop_kind', stop_kind)
+    w = World(base_body(labels={'run': 'yes'}), status_subresource=sub, tmode='symbolic')
+    loop = w.loop
+    calls = []
+
+    @kopf.daemon(PLURAL, id='dm', registry=w.registry, labels={'run': 'yes'}, cancellation_timeout=5, backoff=1)
+    async def dm(stopped, patch, retry, **kw):
+        calls.append(retry)
+        if retry + 1 < attempts:
+            patch.status['tries'] = 'try%d' % retry          # what a failing attempt accumulated is delivered, too
+            raise kopf.TemporaryError('again', delay=1)
+        await stopped.wait()
+        # the last words of a daemon that was asked to stop: accumulated like everything else
+        patch.status['bye'] = 'said'
+        if returns:
+            return {'exit': 'clean'}
+
+    async def settle():
+        last = None
+        for _ in range(8):
+            if w.server.obj is None:
+                return
+            rv = w.server.obj['metadata']['resourceVersion']
+            if rv == last:
+                return
+            last = rv
+            await w.process('MODIFIED')
+
+    async def main():
+        try:
+            await w.process('ADDED')
+            await settle()
+            await asyncio.sleep(gap + 3)
+            await settle()
+            if stop_kind == 0:
+                w.server.write(lambda o: o['metadata'].update(deletionTimestamp='2020-01-01T00:00:00Z'))
+            elif stop_kind == 1:
+                w.server.write(lambda o: o['metadata']['labels'].update(run='no'))
+            else:
+                w.server.write(lambda o: o['spec'].update(x=5))     # an unrelated edit: the daemon keeps running
+            await settle()
+            await asyncio.sleep(10)
+            await settle()
+        finally:
+            await cancel_all_others()
+    try:
+        w.run(main(), max_steps=20000)
+    except (Deadlock, Diverged, Livelock):
+        return vkopf.verdict(False)
+    sent = json.dumps([r.get('payload') for r in w.server.requests], default=str)
+    ok = True
+    if attempts == 2 and '"try0"' not in sent:
+        ok = False
+    if stop_kind in (0, 1):
+        vkopf.witness('stopped_with_last_words')
+        if '"said"' not in sent:
+            ok = False                              # everything accumulated reaches the API server
+        if returns and '"clean"' not in sent:
+            ok = False
+        if sub and any('"said"' in json.dumps(r.get('payload'), default=str) and not r.get('sub') for r in w.server.requests):
+            ok = False                              # status goes through the status subresource when there is one
+    elif '"said"' in sent:
+        ok = False
+    return vkopf.verdict(ok)
+
+
 def obligations():
     obs = split(Ob('h_plan', {}, timeout=1500, twins=['json_patch', 'status_subresource']), pa=[0, 1, 2], pst=[0, 1, 2])
     obs += split(Ob('h_interference', {}, timeout=1500, twins=['conflict', 'gone']), at=[0, 1, 2, 3], kind=[0, 1, 2, 3])
     obs.append(Ob('h_identity', {}, expect='counterexample', finding='F6', timeout=300))
+    obs += split(Ob('h_daemon_delivery', {}, timeout=900, path_timeout=200, twins=['stopped_with_last_words']), stop_kind=[0, 1, 2])
     return obs
